@@ -5,18 +5,24 @@ import Mathlib.Algebra.Field.Rat
 import Mathlib.Tactic.NormNum
 /-! # C15 — kernel smoothing is a renormalised local weighted mean
 
-Property theorems only (helpers are in `Lemmas/Filter.lean`, the model in `Model/Filter.lean`).
-Scalars: any linearly ordered field (`ℚ`, `ℝ`); NaN is `none`. Vocabulary (defined in
-`Lemmas/Filter.lean`):
+Property theorems only (helpers are in `Lemmas/Filter.lean` and `Lemmas/FilterNp.lean`, the model in
+`Model/Filter.lean`). Scalars: any linearly ordered field (`ℚ`, `ℝ`); NaN is `none`. Vocabulary (defined
+in `Lemmas/Filter.lean`):
 
 * `window v k D i` — the pairs `(k[j], v[i - j + D])` over the kernel positions `j` whose sample index
   `i - j + D` is inside the signal and whose sample is not NaN (characterised by `window_spec`);
 * `wtot W = Σ weight`, `wsum W = Σ weight · value`, `wmean W = wsum W / wtot W`;
 * `filterWindow v k boundary` — `Filter.execute` once the kernel has been turned into the window `k`
-  (`boundary = kernel.filterBoundary()`, `false` for a weight list); `execute` — the whole method.
+  (`boundary = kernel.filterBoundary()`, `false` for a weight list); `execute` — the whole method on the
+  values of the input feature; `operate` — `track.operate(Operator.FILTER, af_in, kernel, af_out)` on a
+  track of named signals (kernel possibly a feature name); `filterSeq` / `filterSeqCall` / `smooth` /
+  `session` — `filter_seq` on a list of names / with its `dim` argument and the module-level state /
+  `Track.smooth` / several calls in one process.
 
 Domain (`InDomain`): odd window, non-negative weights, every collected norm positive, and a signal
-at least as long as the half window when the boundary values are copied. -/
+at least as long as the half window when the boundary values are copied. Outside it (a zero norm) the
+theorems say what happens instead: `zero_norm_fails`, `list_zero_weights`, `list_no_sample_fails`,
+`window_zero_sum_fails`. -/
 set_option linter.unusedSectionVars false
 namespace TV.C15
 open TV.Filter
